@@ -303,6 +303,11 @@ Definition rd_vdbl := rd_vec parse_dbl.
 Definition rd_vint := rd_vec parse_int.
 Definition rd_vstr := rd_vec parse_str.
 
+(* _isEndOfData: nothing but blanks and comments is left (used for the records that recent versions append at the end
+   of a file: a file written by an older version stops before them).  Consumes nothing that matters. *)
+Definition rd_eod : reader bool :=
+  fun s => match fst (rword s) with None => Some (true, s) | Some _ => Some (false, s) end.
+
 (* _fileOpenRead: gslSafeGetline(is, type); type = trim(type); type must be the class name.  The very first line is
    taken (a leading blank line is not skipped); on the lexical view the words of that line must be those of the name
    (which may hold blanks: "Fracture Environ") *)
